@@ -313,7 +313,12 @@ pub fn gen_c12_data(sh: &mut Shards, o: &Opts) -> serde_json::Value {
     // and verbatim logs for the accepted ones
     for kind in ["rgb", "lin", "xyb", "hsl"] {
         for len in 0..=40usize {
-            let data: Vec<[f32; 3]> = (0..len).map(|i| [i as f32 + 0.25, -(i as f32), 1.0 / (i as f32 + 1.0)]).collect();
+            // every other pixel carries values a constructor might be tempted to "normalise" (hue 360, -0, NaN, inf, subnormals,
+            // out-of-range values): kept verbatim means bit for bit
+            const SPECIAL: [f32; 12] = [360.0, -0.0, 0.0, 1.0, f32::NAN, f32::INFINITY, f32::NEG_INFINITY, 359.99997, -360.0, 1.0e-40, f32::MAX, 720.0];
+            let data: Vec<[f32; 3]> = (0..len)
+                .map(|i| if i % 2 == 1 { [SPECIAL[(i / 2) % 12], SPECIAL[(i / 2 + 5) % 12], SPECIAL[(i / 2 + 9) % 12]] } else { [i as f32 + 0.25, -(i as f32), 1.0 / (i as f32 + 1.0)] })
+                .collect();
             let mut s = String::new();
             let _ = write!(s, "\"ev\":\"fctor\",\"kind\":\"{kind}\",\"len\":{len},\"grid\":[");
             let mut acc: Vec<String> = Vec::new();
